@@ -1262,6 +1262,11 @@ fn append_to_commitlog(
 
     if let Some(alias) = topic_alias {
         validate_and_set_topic_alias(&mut publish, connection, alias)?;
+    } else if publish.topic.is_empty() {
+        // a topic name is at least one character long [MQTT-4.7.3-1]; stored as it is, an empty
+        // name would later be read by subscribers as "the topic of this alias"
+        error!("Empty topic name without a topic alias");
+        return Err(RouterError::Disconnect(DisconnectReasonCode::ProtocolError));
     };
 
     let topic = std::str::from_utf8(&publish.topic)?;
@@ -1343,6 +1348,11 @@ fn append_will_message(
     }
 
     let topic = std::str::from_utf8(&publish.topic)?;
+
+    // a topic name is at least one character long [MQTT-4.7.3-1]
+    if topic.is_empty() {
+        return Err(RouterError::Disconnect(DisconnectReasonCode::ProtocolError));
+    }
 
     // Ensure that only clients associated with a tenant can publish to tenant's topic
     #[cfg(feature = "validate-tenant-prefix")]
